@@ -29,7 +29,7 @@ impl Prop for C18Prop {
             large_pct: 25,
             n_small: (1, 10),
             n_large: (11, 40),
-            regimes: vec![WeightRegime::AllNan, WeightRegime::Dyadic, WeightRegime::Nasty, WeightRegime::ZeroDyadic, WeightRegime::SmallInt, WeightRegime::Mixed],
+            regimes: vec![WeightRegime::AllNan, WeightRegime::Dyadic, WeightRegime::Nasty, WeightRegime::MostlyOnes, WeightRegime::ZeroDyadic, WeightRegime::SmallInt, WeightRegime::Mixed],
             kinds: AlgoGen::single_edge_kinds(),
             shapes: None,
             lifecycle_pct: 25,
@@ -170,7 +170,7 @@ impl Prop for C18Prop {
         }
     }
     fn rule(&self) -> String {
-        "single-edge graphs (directed / undirected, with self-loops, n <= 40), non-negative weights (dyadic, decimal, with zeros) or unweighted, max_iter in {1,2,5,20,100,1000}, tolerance log-uniform in [1e-12,1e-2], under 4 (quick) / 8 (thorough) hash keyings (the implementation sums in hash order); Ok(x): one entry per node, entries >= 0, | ||x||_2 - 1 | <= 1e-9, and one further step normalise(x + A^T x) moves x by at most 2 sqrt(n) (1+||A||_F) n tol + 1e-9 in L1; exhaustion: a reference iteration with fixed summation order decides whether convergence within max_iter is certain (then Err is a violation), impossible (then Ok is a violation) or too close to call (either). distinct_nontrivial = distinct (graph, arguments) with >= 2 edges; one case in 1200 is a dense graph (1-3 blocks, 60-300 nodes) with 2 100 - 12 500 stored edges under a pool of 2-16 workers (strategy thresholds)".into()
+        "single-edge graphs (directed / undirected, with self-loops, n <= 40), non-negative weights (dyadic, decimal, with zeros) or unweighted, max_iter in {1,2,5,20,100,1000}, tolerance log-uniform in [1e-12,1e-2], under 4 (quick) / 8 (thorough) hash keyings (the implementation sums in hash order); Ok(x): one entry per node, entries >= 0, | ||x||_2 - 1 | <= 1e-9, and one further step normalise(x + A^T x) moves x by at most 2 sqrt(n) (1+||A||_F) n tol + 1e-9 in L1; exhaustion: a reference iteration with fixed summation order decides whether convergence within max_iter is certain (then Err is a violation), impossible (then Ok is a violation) or too close to call (either). distinct_nontrivial = distinct (graph, arguments) with >= 2 edges; one case in 1200 is a dense graph (1-3 blocks, 60-300 nodes) with 2 100 - 12 500 stored edges under a pool of 2-16 workers (strategy thresholds); in a third of the cases a battery of valid unjudged calls runs first on a sibling graph (same names and edges, other node order), in a fifth the graph is queried on the same object before its last one to three operations are applied (DESIGN.md 0.2)".into()
     }
     fn assumptions(&self) -> Vec<String> {
         vec!["the fixed-point bound follows from the stopping rule and the Lipschitz constant of the normalised step (x >= 0 implies ||x + A^T x||_2 >= 1)".into(), "either outcome is accepted inside the 'too close' band around the stopping threshold".into()]
